@@ -602,7 +602,7 @@ def rule_weight_group(prop, repo):
 def rule_weight_lines(prop, repo):
     F = repo.F
     R = Rule("R-WEIGHT-LINES", "line / tangent evaluations and twist-Frobenius maps are weight-homogeneous: num and den slots of equal weight, prepared coefficients a common-factor "
-             "triple, (2k,3k,k) preserved by π, π²", floor=6)
+             "triple, (2k,3k,k) preserved by π, π²", floor=4)
 
     from .roles import PairingRoles
     roles = PairingRoles(F)
@@ -657,7 +657,7 @@ def rule_weight_lines(prop, repo):
         errs = sorted(set(dom.errors))
         R.check(ok and not errs, "%s:weight:%s" % (prop, name), "%s: coefficient triple has weights %s; inhomogeneous operations %s" % (name, desc, errs[:3]), b.file_line(), b.rec["path"],
                 sample={"fn": name, "triple_weight": desc})
-    for b in list(roles.twist_frob) + list(roles.twist_frob_by):
+    for b in list(roles.twist_frob) + list(getattr(roles, "twist_frob_multi", [])) + list(roles.twist_frob_by):
         name = b.name
         R.instance()
         args = by_sig(b, [gpoint("s")] + ([W(form(), "const")] if b in roles.twist_frob_by else []))
@@ -666,8 +666,9 @@ def rule_weight_lines(prop, repo):
         for v, _ in rs:
             if isinstance(v, Adt) and v.variant == "Some":
                 v = v.fields[0]
-            if isinstance(v, Adt) and v.name == G:
-                ks.append(is_point_form(v))
+            for pt in (v.items if isinstance(v, Tup) else [v]):
+                if isinstance(pt, Adt) and pt.name == G:
+                    ks.append(is_point_form(pt))
         errs = sorted(set(dom.errors))
         R.check(ks and all(k == {"s": 1} for k in ks) and not errs, "%s:weight:%s" % (prop, name), "%s does not preserve (2s,3s,s): %s %s" % (name, ks, errs[:2]), b.file_line(), b.rec["path"],
                 sample={"fn": name, "k": str(ks)})
